@@ -226,3 +226,30 @@ def structure_facts(table):
     facts.append(("no-row-wider-than-declared-columns", not too_wide, {"W": W, "rows": too_wide[:5]}))
     facts.append(("table-with-row-has-column", not (H >= 1 and W < 1), {"W": W, "H": H}))
     return facts, (W, H)
+
+
+def expand_full(table, limit=40000):
+    """Per logical cell facts: (W, rows) where each cell is a dict
+    {v, style, covered, cspan, rspan}. None when too big."""
+    cols = [_rep(c, REP_COLS) for c in column_elements(table)]
+    W = sum(cols)
+    out = []
+    total = 0
+    for r in row_elements(table):
+        cells = []
+        for c in cell_elements(r):
+            info = {
+                "v": decode_cell(c),
+                "style": c.get(T + "style-name"),
+                "covered": c.tag == COVERED,
+                "cspan": c.get(T + "number-columns-spanned"),
+                "rspan": c.get(T + "number-rows-spanned"),
+            }
+            cells.extend([info] * _rep(c, REP_COLS))
+        rep = _rep(r, REP_ROWS)
+        total += max(len(cells), 1) * rep
+        if total > limit:
+            return None
+        for _ in range(rep):
+            out.append(list(cells))
+    return W, out
